@@ -47,6 +47,8 @@ type nilFlow struct {
 	pairIdx map[*ssa.Function][2]int // (value index, error index) for XOR candidates
 	kf      *kindFlow
 	phase1  bool
+	tiCache map[[2]*ssa.BasicBlock]bool
+	factsCache map[*ssa.BasicBlock]map[ssa.Value]nilness
 	noInfeasible bool
 	nzCache map[string]bool
 	converged bool
@@ -74,7 +76,7 @@ func xorShape(sig *types.Signature) (int, int, bool) {
 
 func (c *Ctx) newNilFlow() *nilFlow {
 	nf := &nilFlow{c: c, nonnil: map[*ssa.Function]map[int]bool{}, xor: map[*ssa.Function]bool{}, xorWhy: map[*ssa.Function]string{},
-		nzCache: map[string]bool{}, succ: map[*ssa.Function]bool{}, failnil: map[*ssa.Function]bool{}, nnGlobals: map[*ssa.Global]bool{}, gDeps: map[*ssa.Global][]*ssa.Function{},
+		nzCache: map[string]bool{}, tiCache: map[[2]*ssa.BasicBlock]bool{}, factsCache: map[*ssa.BasicBlock]map[ssa.Value]nilness{}, succ: map[*ssa.Function]bool{}, failnil: map[*ssa.Function]bool{}, nnGlobals: map[*ssa.Global]bool{}, gDeps: map[*ssa.Global][]*ssa.Function{},
 		maynil: map[*ssa.Function]map[int]bool{}, deref: map[*ssa.Function]map[int]bool{}, cgOut: map[ssa.CallInstruction][]*ssa.Function{},
 		pairIdx: map[*ssa.Function][2]int{}}
 	// externals documented/known never to return nil
@@ -209,6 +211,23 @@ func extName(f *ssa.Function) string {
 
 // facts at a block: values known nil / non-nil from dominating tests
 func (nf *nilFlow) factsAt(b *ssa.BasicBlock) map[ssa.Value]nilness {
+	if c, ok := nf.factsCache[b]; ok {
+		out := make(map[ssa.Value]nilness, len(c)+2)
+		for k, v := range c {
+			out[k] = v
+		}
+		return out
+	}
+	facts := nf.factsAtUncached(b)
+	nf.factsCache[b] = facts
+	out := make(map[ssa.Value]nilness, len(facts)+2)
+	for k, v := range facts {
+		out[k] = v
+	}
+	return out
+}
+
+func (nf *nilFlow) factsAtUncached(b *ssa.BasicBlock) map[ssa.Value]nilness {
 	facts := map[ssa.Value]nilness{}
 	for d := b; d != nil; d = d.Idom() {
 		if len(d.Preds) != 1 {
@@ -1131,6 +1150,16 @@ func (nf *nilFlow) typeInfeasible(pred, succ *ssa.BasicBlock) bool {
 	if nf.kf == nil {
 		return false
 	}
+	key := [2]*ssa.BasicBlock{pred, succ}
+	if v, ok := nf.tiCache[key]; ok {
+		return v
+	}
+	v := nf.typeInfeasibleUncached(pred, succ)
+	nf.tiCache[key] = v
+	return v
+}
+
+func (nf *nilFlow) typeInfeasibleUncached(pred, succ *ssa.BasicBlock) bool {
 	neg := map[ssa.Value][]types.Type{}
 	add := func(p, d *ssa.BasicBlock) {
 		if len(p.Instrs) == 0 {
